@@ -27,24 +27,29 @@ func (transScenario) Config(r *rand.Rand, small bool) string {
 	for i := range ops {
 		ops[i] = "OCFS"[r.Intn(4)] // OpenCircuit, CloseCircuit, Failing call, Succeeding call
 	}
-	fo0 := 0
+	fo0, fc0 := 0, 0
 	if !small && r.Intn(3) == 0 {
 		// an operator override switched while calls are in flight: ForceOpen on ('X'), ForcedClosed on ('Y'), or — with the
 		// kill switch ON when the race starts — both overrides off ('Z').  An override makes IsOpen() answer without any
 		// transition, so no notification may result from the switch itself, and a transition racing it must behave as
 		// under the old or under the new setting: in particular it never announces Opened for an open circuit or Closed
 		// for a closed one (such configurations have no K2 model: flags are static there)
-		switch r.Intn(3) {
+		switch r.Intn(5) {
 		case 0:
 			ops[r.Intn(k)] = 'X'
 		case 1:
 			ops[r.Intn(k)] = 'Y'
+		case 2:
+			ops[r.Intn(k)] = 'W'
+		case 3:
+			ops[r.Intn(k)] = 'V'
+			fc0, fo0 = 1, r.Intn(2)
 		default:
 			ops[r.Intn(k)] = 'Z'
-			fo0 = 1
+			fo0, fc0 = 1, r.Intn(2)
 		}
 	}
-	return fmt.Sprintf("init=%d fo0=%d ops=%s", r.Intn(2), fo0, ops)
+	return fmt.Sprintf("init=%d fo0=%d fc0=%d ops=%s", r.Intn(2), fo0, fc0, ops)
 }
 
 type yesOpener struct{ log *[]string }
@@ -90,9 +95,9 @@ func (transScenario) Build(cfg string) ([]func(), func(*vsched.Sched) []string) 
 		c.OpenCircuit(context.Background())
 		rec.log = nil
 	}
-	if cfgInt(cfg, "fo0") == 1 { // the kill switch is ON when the race starts (somebody may switch it off: 'Z')
+	if cfgInt(cfg, "fo0") == 1 || cfgInt(cfg, "fc0") == 1 { // overrides in force when the race starts (somebody may switch them off: 'Z', 'V')
 		conf := c.Config()
-		conf.General.ForceOpen = true
+		conf.General.ForceOpen, conf.General.ForcedClosed = cfgInt(cfg, "fo0") == 1, cfgInt(cfg, "fc0") == 1
 		c.SetConfigThreadSafe(conf)
 	}
 	nameVars(c, "c")
@@ -119,6 +124,18 @@ func (transScenario) Build(cfg string) ([]func(), func(*vsched.Sched) []string) 
 				conf.General.ForceOpen, conf.General.ForcedClosed = false, false
 				c.SetConfigThreadSafe(conf)
 			})
+		case 'V': // ForcedClosed off, ForceOpen as it is
+			bodies = append(bodies, func() {
+				conf := c.Config()
+				conf.General.ForcedClosed = false
+				c.SetConfigThreadSafe(conf)
+			})
+		case 'W': // both overrides on (ForceOpen wins)
+			bodies = append(bodies, func() {
+				conf := c.Config()
+				conf.General.ForceOpen, conf.General.ForcedClosed = true, true
+				c.SetConfigThreadSafe(conf)
+			})
 		case 'Y':
 			bodies = append(bodies, func() {
 				conf := c.Config()
@@ -136,7 +153,7 @@ func (transScenario) Build(cfg string) ([]func(), func(*vsched.Sched) []string) 
 		for i, n := range rec.log {
 			if n == prev {
 				problems = append(problems, fmt.Sprintf("notifications do not alternate: %s (index %d repeats) from initial %v", strings.Join(rec.log, ""), i, initOpen))
-				if strings.ContainsAny(cfgStr(cfg, "ops"), "XYZ") {
+				if strings.ContainsAny(cfgStr(cfg, "ops"), "XYZVW") {
 					problems = append(problems, "C11: a transition racing a live change of an override announced what neither the old nor the new setting allows (it saw both values of one flag)")
 				}
 				break
@@ -147,7 +164,7 @@ func (transScenario) Build(cfg string) ([]func(), func(*vsched.Sched) []string) 
 		if len(rec.log) > 0 {
 			last = rec.log[len(rec.log)-1] == "O"
 		}
-		if strings.ContainsAny(cfgStr(cfg, "ops"), "XYZ") || cfgInt(cfg, "fo0") == 1 { // judge the underlying state: clear the override first
+		if strings.ContainsAny(cfgStr(cfg, "ops"), "XYZVW") || cfgInt(cfg, "fo0") == 1 || cfgInt(cfg, "fc0") == 1 { // judge the underlying state: clear the override first
 			conf := c.Config()
 			conf.General.ForceOpen, conf.General.ForcedClosed = false, false
 			c.SetConfigThreadSafe(conf)
